@@ -16,6 +16,11 @@ def p_kernels(ctx):
     run_kernels(ctx, "safety")
 
 
+def p_deflevels(ctx):
+    from ._deflevels import p_deflevels as f
+    f(ctx)
+
+
 def p_merge_bytes(ctx):
     from ._merge import p_merge_bytes as f
     f(ctx)
@@ -30,4 +35,4 @@ def run(ctx):
     from ._callsites import p_callsites
     from ._generic import optional_parts
     extra = optional_parts(("_hybrid", "p_hybrid"), ("_encoders", "p_encoders"), ("_speedups", "p_speedups"), ("_assembly", "p_assembly"), ("_options", "p_options"))
-    return run_property(ctx, "proof", EXPLANATION, p_parts=[p_kernels, p_callsites, p_thrift, p_merge_bytes] + extra, b_modules=[])
+    return run_property(ctx, "proof", EXPLANATION, p_parts=[p_kernels, p_callsites, p_thrift, p_merge_bytes, p_deflevels] + extra, b_modules=[])
